@@ -226,6 +226,27 @@ def opSet (args impl : List String) : Except String (String × String) := do
     pure (showR (withFlags h) (setG h n g64 (e == 1) v), verdictSet h n g64 (e == 1) v impl)
   | _ => throw "bad tr.set args"
 
+/-- tr.set2: the same link applied to two values; in the (immutable) model the first result is
+    simply unaffected by the second application. PROP = CORR here: the implementation must print
+    both results, each the plain setNode result, and the first one unchanged afterwards. -/
+def opSet2 (args impl : List String) : Except String (String × String) := do
+  match args with
+  | hn :: rest =>
+    let h := hashByName hn
+    let (g, rest) ← runP num rest
+    let (e, rest) ← runP num rest
+    let (n, rest) ← runP (tree h) rest
+    let (v1, rest) ← runP (tree h) rest
+    let (v2, _) ← runP (tree h) rest
+    let g64 := UInt64.ofNat g
+    let r : R String := do
+      let r1 ← setG h n g64 (e == 1) v1
+      let r2 ← setG h n g64 (e == 1) v2
+      pure (withRoot h r1 ++ " " ++ withRoot h r2 ++ " again=" ++ hex (r1.root h))
+    let m := showR id r
+    pure (m, if g == 0 then "ok" else if " ".intercalate impl == m then "ok" else "FAIL:link-reuse-changed-an-earlier-result-or-differs")
+  | _ => throw "bad tr.set2 args"
+
 def opSum (args impl : List String) : Except String (String × String) := do
   match args with
   | hn :: rest =>
@@ -292,6 +313,7 @@ def handle (name : String) (args impl : List String) : Option (Except String (St
   | "tr.get" => some (opGet args impl)
   | "tr.set" => some (opSet args impl)
   | "tr.sum" => some (opSum args impl)
+  | "tr.set2" => some (opSet2 args impl)
   | "tr.fillc" => some (opFillC args impl)
   | "tr.filll" => some (opFillL args impl)
   | "tr.filld" => some (opFillD args impl)
